@@ -198,7 +198,9 @@ def gen_point(rng, cm, k):
     x = []
     for i in range(cm['npars']):
         if i in cm['alphas']:
-            x.append(ALPHA_POINTS[(k * 3 + i) % len(ALPHA_POINTS)] if rng.random() < 0.75 else round(rng.uniform(-2.5, 2.5), rng.choice([1, 3, 15])))
+            r = rng.random()
+            x.append(rng.choice([0.0, 1.0, -1.0]) if r < 0.35 else ALPHA_POINTS[(k * 3 + i) % len(ALPHA_POINTS)] if r < 0.75
+                     else round(rng.uniform(-2.5, 2.5), rng.choice([1, 3, 15])))
         else:
             x.append(rng.choice([1.0, round(rng.uniform(0.3, 2.2), rng.choice([1, 3, 15]))]))
     return x
@@ -326,7 +328,7 @@ def run(ctx):
         c['cm'] = compile_model(c['spec'], c['code'], build_pdf(c['spec'], c['code']))
         c['_cfg'] = [tuple(body['config'])]
         cases.append(c)
-    ncase = ctx.n(45, 500)
+    ncase = ctx.n(40, 500)
     cases += [make_case(rng, k) for k in range(ncase)]
     ctx.log('generated %d cases' % len(cases))
     # exact gradients in Coq (started first: they do not depend on the implementation)
